@@ -4087,10 +4087,16 @@ class CaseNode(Node):
 
 class OptionalNode(ActionSinkNode):
     def __init__(self, sub_contents: Node):
-        self.sub_contents = sub_contents
         self.start_actions = []
         self.finish_actions = []
         self.next = None
+
+        if isinstance(sub_contents, ActionSourceNode) and not isinstance(sub_contents, ActionNode):
+            # What opens the body of a block (try, loop, foreach, if) is handed to whatever stands in front of the block: here, to
+            # the bytes that decide that the optional is taken.
+            opening_actions, sub_contents = sub_contents.adopt_actions_from()
+            self.start_actions.extend(opening_actions)
+        self.sub_contents = sub_contents
 
     def _set_next(self, next_node):
         self.next = next_node
